@@ -1,2 +1,8 @@
 import LP.Props.C05
-#print axioms LP.C05_placeholder
+#print axioms LP.Factor.toPolyZ_mul
+#print axioms LP.Factor.toPolyZ_pow
+#print axioms LP.Factor.toPolyZ_trim
+#print axioms LP.Factor.toPolyZ_product
+#print axioms LP.Factor.C05_product_sound
+#print axioms LP.QPoly.C05_sqfree_cert_sound
+#print axioms LP.QPoly.C03_coprimeCert_sound
